@@ -263,6 +263,25 @@ def stepCore (st : St) (pre post : List String) : St × Verdict :=
           if impl.any (fun p => (obsStore e.2 p.1).map (·.2.2) ≠ some p.2) then (st, pf st "lazy-contents-differ" s!"version {v}: {post}")
           else (st, .ok)
     | _, _ => (st, .bad "lazy")
+  -- lazy load on a multistore with a substore mounted after genesis: `LoadLazyVersion` hands the multistore
+  -- version to every substore, which is unspecified for a substore whose own versions lag behind;
+  -- compared with the model only
+  | ["lazym", v] =>
+    match v.toInt?, st.model with
+    | some v, some m =>
+      let mres : Option (List (Name × String)) := st.names.mapM fun n =>
+        match aget n m.stores with
+        | none => none
+        | some t =>
+          match lazyLoadVersion t v with
+          | some (some (_, r)) => some (n, renderKV (toListOpt r))
+          | _ => none
+      match post with
+      | "ERR" :: _ | "PANIC" :: _ => (st, if mres.isSome then .diff s!"lazym {v}: model loads, implementation fails" else .ok)
+      | parts =>
+        let impl := parts.map fun p => match p.splitOn "=" with | [a, b] => (nameOf a, b) | _ => ([], "")
+        (st, if mres ≠ some impl then .diff s!"lazym {v}: model≠impl" else .ok)
+    | _, _ => (st, .bad "lazym")
   | ["replica", b] =>
     match b.toInt?, post with
     | some b, [ver, hash] =>
